@@ -28,7 +28,7 @@ cSymsCluster == ClusterPool
 cActsEval == {"ModelEval", "JacEval", "SensEval"}
 cSensors == SensorPool
 cReadings == ReadingPool
-cOpsAll == {"add","sub","mul","div","neg","pow2","pow3","sin","cos","exp","tanh","atan","sqrt1","log1","tan","asinb","acosb","muldt"}
+cOpsAll == {"add","sub","mul","div","neg","pow2","pow3","sin","cos","exp","tanh","atan","sqrt1","log1","tan","asinb","acosb","muldt","abs1"}
 cOpsRat == {"add","sub","mul","div","neg","pow2","muldt"}
 cOpsLin == {"add","sub","neg","muldt"}
 cConsts == <<RI(2), RQ(1,2), RI(-1), RI(3)>>
